@@ -26,6 +26,8 @@ def run(idx, rep, tier):
     colliders.r_querystate(idx, rep)
     affine.r_originfree(idx, rep, ["distance3d.mesh", "distance3d.geometry", "distance3d.colliders"], floor=20)
     colliders.r_coherence(idx, rep, relevant_to="support_function")      # 'every collider' includes colliders that were moved with update_pose
+    colliders.r_stalekey(idx, rep)
+    colliders.r_centerinset(idx, rep)
     colliders.r_margin(idx, rep, floor=3)
     colliders.r_axis(idx, rep)
     colliders.r_aabbargs(idx, rep)
